@@ -7,7 +7,8 @@ module; everything is torn down and checked empty between configurations):
     python -m harness.props.c20_worker IN.json OUT.json      # IN: {"jobs": [job, ...]}  ->  OUT: {"results": [result, ...]}
 
 job (a *pair* of configurations plus, optionally, a mutation of the documents before they are restored):
-  {"hardware": [{"id": "hw1", "kind": "bool_rw"|"num_rw"|"num_ro"|"custom", "input": 3}, ...],   # non-virtual ports, same on both hubs
+  {"hardware": [{"id": "hw1", "kind": "bool_rw"|"num_rw"|"num_ro"|"custom", "input": 3, "fault": null|"OSError"|...}, ...],
+                                                        # non-virtual ports, same on both hubs; fault: read_value raises while PUT /ports runs
    "source": [op, ...], "target": [op, ...],
    "mutate": null | [["ports"|"device"|"devices"|"peripherals", mutation], ...],
    "restore": [...] (optional)                                         # which documents are PUT, in this order; default: ALL four,
@@ -80,8 +81,11 @@ class Hub:
             def __init__(self, port_id, inp=None):
                 super().__init__(port_id)
                 self._hw_value = inp
+                self.c20_fault = None        # scripted read fault (armed only while PUT /ports runs)
 
             async def read_value(self):
+                if self.c20_fault:
+                    raise hub.make_exc(self.c20_fault)
                 return self._hw_value
 
             async def write_value(self, value):
@@ -204,6 +208,18 @@ class Hub:
         slaves_devices.Slave._listen_loop = idle_loop
         slaves_devices.Slave._poll_loop = idle_loop
 
+        def make_exc(kind):
+            if kind == 'OSError':
+                return OSError(5, 'scripted I/O error')
+            if kind == 'PortReadError':
+                return core_ports.PortReadError('scripted read error')
+            if kind == 'SkipRead':
+                return core_ports.SkipRead()
+            if kind == 'TimeoutError':
+                return asyncio.TimeoutError()
+            return RuntimeError('scripted driver failure')
+
+        self.make_exc = make_exc
         self.hw_classes = {'bool_rw': HwBoolRW, 'num_rw': HwNumRW, 'num_ro': HwNumRO, 'custom': HwCustom}
         self.transform_log = []
 
@@ -539,7 +555,17 @@ async def run_job(hub, job):
             res['mid_raw'] = await hub.raw_values()
         doc = copy.deepcopy(sent[name])
         res['sent'][name] = copy.deepcopy(doc)
+        faulty = []
+        if name == 'ports':
+            # hardware whose read fails at the moment of the restore (unplugged / broken): {"id":.., "fault": kind} in job.hardware
+            for h in job.get('hardware', []):
+                port = hub.core_ports.get(h['id'])
+                if h.get('fault') and port is not None:
+                    port.c20_fault = h['fault']
+                    faulty.append(port)
         res['put'][name] = await hub.restore(name, doc)
+        for port in faulty:
+            port.c20_fault = None
         res['flags'][name] = hub.flags()
         res['behaviour'][name] = await hub.behaviour()
         res['after_put'][name] = (await hub.docs())[name]      # what that endpoint answers right after its own PUT
